@@ -30,7 +30,8 @@ def core_of(content):
 
 def depth_of(content):
     d = 0
-    while isinstance(content, commands.IfCommand) and isinstance(content.arguments.get("test"), commands.FalseCommand) and content.children:
+    # an `if false` wrapper is recognised by what it SAYS (the command names), not by the classes of the objects
+    while getattr(content, "name", None) == "if" and getattr(content.arguments.get("test"), "name", None) == "false" and content.children:
         d += 1
         content = content.children[0]
     return d
@@ -48,16 +49,20 @@ for n in NAMES:
     OPS += [("replace", n, "-", 1), ("replace", n, NAMES[(NAMES.index(n) + 1) % 3], 2)]
     # a content that is not an `if` command (a bare action taken from a parsed script): a filter's content is whatever command it was given
     OPS += [("replace", n, "-", 9)]
+    # contents taken from a parsed script whose own test is a constant or a negation: `if true { … }`, `if not false { … }` are
+    # rules like any other — enabled, and not a wrapper
+    OPS += [("replace", n, "-", 8), ("replace", n, "-", 7)]
     # the content of ANOTHER filter of the same set installed as this one's (`replacefilter(n, fs.getfilter(m))`, the call the
     # documentation shows): afterwards the two filters have equal content, and remain two filters
     OPS += [("replacefrom", n, m) for m in NAMES if m != n]
 
 
 def fresh_content(i):
-    if i == 9:
+    if i in (7, 8, 9):
         from sievelib.parser import Parser
         p = Parser()
-        assert p.parse(b'require "fileinto"; fileinto "F9";')
+        assert p.parse({9: b'require "fileinto"; fileinto "F9";', 8: b'require "fileinto"; if true { fileinto "F8"; stop; }',
+                        7: b'require "fileinto"; if not false { fileinto "F7"; }'}[i])
         return p.result[1]
     tmp = FiltersSet("tmp")
     tmp.addfilter("x", *definition(i))
